@@ -498,7 +498,10 @@ def _strip(metrics, drop):
 # ================================================================================================
 
 T1_GATED_KEYS = ("parallel_workers", "task_count")
-T1_CACHE_DEP_KEYS = {"cache_hits", "cache_misses", "cache_used", "t1.cache_evictions", "t1.cache_bytes", "max_delta"}
+# counters that follow which entries the stage cache holds / evicts ...
+T1_EVICT_DEP_KEYS = {"cache_hits", "cache_misses", "cache_used", "t1.cache_evictions", "t1.cache_bytes"}
+# ... and counters a cache hit reports as 0 (no work done): may differ only in a call whose hit count differs
+T1_HIT_DEP_KEYS = {"max_delta", "t1_frontier_evicted", "t1_dedup_hits", "t1_visited_evicted"}
 F_T1_EVICT = "t1-parallel-cache-eviction-order"
 T1_GIDS = ["g1", "g2", "G", "γ", "g10", "main", "g3", "zz"]
 OFF_MODES = ["absent", "disabled", "gate_off", "workers1", "workers0"]
@@ -555,7 +558,25 @@ def t1_cases(draw):
 
 
 def _t1_cache_can_evict(case):
-    return case["cache"] in ("lru_small", "bytes_small") and int(case["cache_n"]) < len(case["order"])
+    """The stage cache is smaller than the number of distinct entries (graph, seed set) the case's calls touch."""
+    from harness.models import t1 as t1ref
+
+    if case["cache"] not in ("lru_small", "bytes_small"):
+        return False
+    keys = set()
+    for call in case["calls"]:
+        for gid in case["order"]:
+            seeds = t1ref.ref_seeds(case["graphs"][gid], call["text"])
+            if seeds:
+                keys.add((gid, tuple(seeds)))
+    return int(case["cache_n"]) < len(keys)
+
+
+def _t1_only_cache_dependent(diff):
+    keys = set(diff)
+    if not keys <= (T1_EVICT_DEP_KEYS | T1_HIT_DEP_KEYS):
+        return False
+    return "cache_hits" in keys or not (keys & T1_HIT_DEP_KEYS)
 
 
 def _t1_cfg(case, parallel: bool):
@@ -654,12 +675,12 @@ def check_t1(case, rec=None):
             diff = {k: (ma.get(k), mb.get(k)) for k in sorted(set(ma) | set(mb)) if ma.get(k) != mb.get(k)}
             # shared lock-wrapped stage cache smaller than the fan-out: which entry gets evicted follows the completion
             # order, so hit/miss/eviction counters (and max_delta, which a hit reports as 0) can differ - nothing else may
-            if set(diff) <= T1_CACHE_DEP_KEYS and _t1_cache_can_evict(case):
+            if _t1_only_cache_dependent(diff) and _t1_cache_can_evict(case):
                 if rec is not None and rec.is_known(F_T1_EVICT):
                     evict_excluded = True
                     continue
                 raise Violation(f"{where}: stage-cache counters depend on the completion order {order} of the per-graph tasks "
-                                f"(cache holds {case['cache_n']} entries, {len(case['order'])} graphs) (sequential, parallel): {diff}",
+                                f"(cache holds {case['cache_n']} entries, fewer than the calls touch) (sequential, parallel): {diff}",
                                 case, "t1-cache-eviction-order")
             raise Violation(f"{where}: counters differ with completion order {order} (sequential, parallel): {diff}", case, "t1-counters")
     if rec is not None:
